@@ -1,11 +1,13 @@
 #!/bin/bash
-# build_lib.sh <scratch-dir>: static build of /repo's working tree (hooks on) into <scratch-dir>/_build ; prints the path of libvata.a
+# build_lib.sh <scratch-dir> [cli]: build of /repo's working tree (hooks on) into <scratch-dir>/_build ; prints the path of libvata.a
+# (with "cli" also builds the command-line tool <scratch-dir>/_build/cli/vata)
 set -e
 REPO=${VERIF_REPO:-/repo}; D=$1
 mkdir -p $D
-if [ ! -f $D/_build/src/libvata.a ]; then
+if [ ! -f $D/_build/build.ninja ]; then
   rsync -a --exclude _build --exclude .git $REPO/ $D/src_copy/
   cmake -G Ninja -S $D/src_copy -B $D/_build -DCMAKE_BUILD_TYPE=RelWithDebInfo -DCMAKE_CXX_FLAGS=-DLIBVATA_VERIF >/dev/null 2>&1
-  cmake --build $D/_build -j${VERIF_JOBS:-14} --target libvata >/dev/null 2>&1 || cmake --build $D/_build -j${VERIF_JOBS:-14} >/dev/null 2>&1
 fi
+if [ ! -f $D/_build/src/libvata.a ]; then cmake --build $D/_build -j${VERIF_JOBS:-14} --target libvata >/dev/null 2>&1; fi
+if [ "$2" = "cli" ] && [ ! -x $D/_build/cli/vata ]; then cmake --build $D/_build -j${VERIF_JOBS:-14} --target vata >/dev/null 2>&1; fi
 echo $D/_build/src/libvata.a
